@@ -85,6 +85,172 @@ fn part_diff_direction(ctx: &Ctx) -> u64 {
     n.load(AO::Relaxed)
 }
 
+/// Bases for the use-site parts: both sides of 0, 2^31 and 2^32.
+const USE_BASES: [u32; 12] = [0, 1, 7, 0x7FFF_FFFD, 0x7FFF_FFFF, 0x8000_0000, 0x8000_0001, 0xFFFF_FFFB, 0xFFFF_FFFD, 0xFFFF_FFFE, 0xFFFF_FFFF, 0x1234_5678];
+
+/// Use site: the IXFR interpreter and the zone updater (net::xfr::protocol::interpreter,
+/// zonetree::update / in_memory::write). An incremental transfer is a chain of difference sequences
+/// old -> new; "new is newer than old" is a matter of RFC 1982, so a chain whose serials step across
+/// 2^31 or across the 2^32 wrap is as good as any other: it must be accepted, reported with the
+/// serials as sent, and leave the receiving zone at the last serial.
+fn part_ixfr_across_the_wrap(ctx: &Ctx) -> u64 {
+    use domain::base::iana::{Class, Rcode, Rtype};
+    use domain::base::{Message, MessageBuilder, Name};
+    use domain::net::xfr::protocol::XfrResponseInterpreter;
+    use domain::zonetree::types::ZoneUpdate;
+    use domain::zonetree::update::ZoneUpdater;
+    use mc::zfix::*;
+    let steps_menu: [&[u32]; 6] = [&[1], &[2], &[1, 1], &[1, 1, 1], &[3, 0x7FFF_FFF0], &[0x7FFF_FFFF]];
+    let n = AtomicU64::new(0);
+    USE_BASES.par_iter().for_each(|&b| {
+        for steps in steps_menu {
+            let mut serials = vec![b];
+            for d in steps {
+                serials.push(serials.last().unwrap().wrapping_add(*d));
+            }
+            let last = *serials.last().unwrap();
+            let case = || json!({"part": "ixfr-across-the-wrap", "serials": serials});
+            n.fetch_add(1, AO::Relaxed);
+            let r = guard(|| -> Result<(), (String, String)> {
+                // the response: SOA(last) { SOA(s_i) -A(i) SOA(s_i+1) +A(i+1) }* SOA(last)
+                let soa = |ser: u32| record_of(&vec![], &Rd::Soa(ser));
+                let a = |k: usize| record_of(&rel("a"), &Rd::A(10 + k as u8));
+                let mut recs = vec![soa(last)];
+                for i in 0..serials.len() - 1 {
+                    recs.push(soa(serials[i]));
+                    recs.push(a(i));
+                    recs.push(soa(serials[i + 1]));
+                    recs.push(a(i + 1));
+                }
+                recs.push(soa(last));
+                let mut qb = MessageBuilder::new_vec().question();
+                qb.header_mut().set_qr(true);
+                qb.header_mut().set_rcode(Rcode::NOERROR);
+                qb.push((Name::<Vec<u8>>::from_octets(vec![1, b'z', 0]).unwrap(), Rtype::IXFR, Class::IN)).unwrap();
+                let mut ab = qb.answer();
+                for r in &recs {
+                    ab.push(r.clone()).map_err(|_| ("harness".to_string(), "push".to_string()))?;
+                }
+                let msg = Message::from_octets(bytes::Bytes::from(ab.finish())).unwrap();
+                // the receiving zone holds the first version
+                let mut c = Content::base(b);
+                c.add("a", Rd::A(10));
+                let zone = build_direct(&c, false);
+                let rt = rt();
+                let mut it = XfrResponseInterpreter::new();
+                let ups = it.interpret_response(msg).map_err(|e| ("interpreter-rejects".to_string(), format!("interpret_response: {e:?}")))?;
+                let mut got = Vec::new();
+                let mut updates = Vec::new();
+                for u in ups {
+                    let u = u.map_err(|e| ("interpreter-rejects".to_string(), format!("update iterator: {e:?}")))?;
+                    fn soa_of<N>(r: &domain::base::Record<N, domain::rdata::ZoneRecordData<bytes::Bytes, N>>) -> u32 {
+                        match r.data() {
+                            domain::rdata::ZoneRecordData::Soa(s) => s.serial().into_int(),
+                            _ => u32::MAX,
+                        }
+                    }
+                    match &u {
+                        ZoneUpdate::BeginBatchDelete(r) => got.push(("del", soa_of(r))),
+                        ZoneUpdate::BeginBatchAdd(r) => got.push(("add", soa_of(r))),
+                        ZoneUpdate::Finished(r) => got.push(("fin", soa_of(r))),
+                        ZoneUpdate::DeleteAllRecords => got.push(("delete-all", 0)),
+                        _ => {}
+                    }
+                    updates.push(u);
+                }
+                let mut want = Vec::new();
+                for i in 0..serials.len() - 1 {
+                    want.push(("del", serials[i]));
+                    want.push(("add", serials[i + 1]));
+                }
+                want.push(("fin", last));
+                if got != want {
+                    return Err(("interpreter-reports-other-serials".into(), format!("difference sequences reported as {:?}, sent {:?}", got, want)));
+                }
+                if !it.is_finished() {
+                    return Err(("interpreter-not-finished".into(), "the transfer is complete but the interpreter wants more".into()));
+                }
+                // apply to the receiving zone
+                rt.block_on(async {
+                    let mut up = ZoneUpdater::new(zone.clone()).await.map_err(|e| ("updater-rejects".to_string(), format!("ZoneUpdater::new: {e}")))?;
+                    for u in updates {
+                        up.apply(u).await.map_err(|e| ("updater-rejects".to_string(), format!("apply: {e}")))?;
+                    }
+                    Ok::<(), (String, String)>(())
+                })?;
+                let mut cn = Content::base(last);
+                cn.add("a", Rd::A(10 + (serials.len() - 1) as u8));
+                let rd = zone.read();
+                let (w, _) = walk(rd.as_ref());
+                if w != content_as_walk(&cn) {
+                    return Err(("receiver-zone-differs".into(), format!("after the transfer the zone does not hold the last version (serial {last})")));
+                }
+                Ok(())
+            });
+            match r {
+                Ok(Ok(())) => {}
+                Ok(Err((kind, what))) => {
+                    let crossing = if serials.windows(2).any(|w| w[1] < w[0]) { "2^32" } else if serials.windows(2).any(|w| (w[0] ^ w[1]) & 0x8000_0000 != 0) { "2^31" } else { "none" };
+                    ctx.violation(&format!("C17|ixfr|{kind}|chain-crosses={crossing}"), &format!("{what} [serials {:?}]", serials), case());
+                }
+                Err(p) => {
+                    ctx.violation(&format!("C17|ixfr|panic|{}", panic_class(&p)), &p, case());
+                }
+            }
+        }
+    });
+    n.load(AO::Relaxed)
+}
+
+/// Use site: commit(bump_soa_serial = true) of the in-memory zone (in_memory::write): the published SOA
+/// serial must be the RFC 1982 successor of the previous one - also at 2^31-1 and at 2^32-1.
+fn part_commit_bump(ctx: &Ctx) -> u64 {
+    use domain::base::iana::Rtype;
+    use mc::zfix::*;
+    let n = AtomicU64::new(0);
+    USE_BASES.par_iter().for_each(|&b| {
+        let case = || json!({"part": "commit-bumps-serial", "start": b});
+        let r = guard(|| -> Result<(), (String, String)> {
+            let mut c = Content::base(b);
+            c.add("a", Rd::A(1));
+            let zone = build_direct(&c, false);
+            let rt = rt();
+            let mut cur = b;
+            for k in 0..4u8 {
+                n.fetch_add(1, AO::Relaxed);
+                rt.block_on(async {
+                    let mut w = zone.write().await;
+                    let apex = w.open(false).await.unwrap();
+                    let node = node_for(apex.as_ref(), &rel("a")).await.unwrap();
+                    node.update_rrset(rrset_of(&[Rd::A(2 + k)])).await.unwrap();
+                    drop(node);
+                    drop(apex);
+                    w.commit(true).await.unwrap();
+                });
+                let o = query(zone.read().as_ref(), &vec![], Rtype::SOA);
+                let want = Rd::Soa(cur.wrapping_add(1)).wire();
+                let got: Vec<Vec<u8>> = o.answer.iter().filter(|x| x.1 == 6).map(|x| x.2.clone()).collect();
+                if got != vec![want] {
+                    let serial = got.first().and_then(|g| g.len().checked_sub(20).map(|p| u32::from_be_bytes([g[p], g[p + 1], g[p + 2], g[p + 3]])));
+                    return Err(("published-serial-is-not-the-successor".into(), format!("commit(true) on serial {cur} published serial {:?}, RFC 1982 successor is {}", serial, cur.wrapping_add(1))));
+                }
+                cur = cur.wrapping_add(1);
+            }
+            Ok(())
+        });
+        match r {
+            Ok(Ok(())) => {}
+            Ok(Err((kind, what))) => {
+                ctx.violation(&format!("C17|commit-bump|{kind}"), &what, case());
+            }
+            Err(p) => {
+                ctx.violation(&format!("C17|commit-bump|panic|{}", panic_class(&p)), &p, case());
+            }
+        }
+    });
+    n.load(AO::Relaxed)
+}
+
 fn days_from_civil(y: i64, m: i64, d: i64) -> i64 {
     // proleptic Gregorian calendar, days since 1970-01-01
     let y = if m <= 2 { y - 1 } else { y };
@@ -358,8 +524,9 @@ fn main() {
         }
     }
     let (diff_cases, text_cases) = (part_diff_direction(&ctx), part_text_forms(&ctx));
-    evals.fetch_add(diff_cases + text_cases, AO::Relaxed);
-    nontriv.fetch_add(diff_cases + text_cases, AO::Relaxed);
+    let (ixfr_cases, bump_cases) = (part_ixfr_across_the_wrap(&ctx), part_commit_bump(&ctx));
+    evals.fetch_add(diff_cases + text_cases + ixfr_cases + bump_cases, AO::Relaxed);
+    nontriv.fetch_add(diff_cases + text_cases + ixfr_cases + bump_cases, AO::Relaxed);
     let e = evals.load(AO::Relaxed);
     ctx.finish(
         json!({
@@ -368,7 +535,7 @@ fn main() {
             "rule": "pairs (base, c) for every c in 0..2^32 per base; every pair is distinct by construction; non-trivial = c != base (counted per chunk)",
             "exhaustive": true,
             "bases": bases,
-            "use_sites": {"zone_diff_direction_cases": diff_cases, "signature_time_text_cases": text_cases, "rule": "zone diffs: InMemoryZoneDiffBuilder::build for start = base, end = base + d over 14 bases x a dense offset grid (every multiple of 65537 and +-2 around 0, 2^31, 2^32): a diff is made iff end is newer than start by RFC 1982 (2^31 apart: either), with start/end serials as given; signature times in text: every calendar day 1970-01-01..2500-12-31 at 00:00:00 and 23:59:59, every second +-3 around k*2^31 (k = 1..8), Jan 1/Dec 31 of years 1971..9998 step 97, all month x day combinations of a leap and a non-leap year, hour/minute/second edge values, and integer forms at the u32 boundaries, through Timestamp::from_str and Timestamp::scan: value == seconds since the epoch mod 2^32 (own civil-date arithmetic), invalid dates rejected, integers above 2^32-1 rejected; Timestamp::to_system_time for references in the first two 2^32-second eras for all 2^32 timestamps"},
+            "use_sites": {"zone_diff_direction_cases": diff_cases, "signature_time_text_cases": text_cases, "ixfr_chains": ixfr_cases, "commit_bumps": bump_cases, "rule": "IXFR: for 12 start serials on both sides of 0, 2^31 and 2^32 x 6 chains of 1-3 difference sequences (steps 1, 2, 2^31-16, 2^31-1) the response is built, interpreted by XfrResponseInterpreter (batches reported with the serials sent) and applied by ZoneUpdater to a zone at the first serial (ends at the last version); commit(true): 4 successive serial-bumping commits from each start serial publish the RFC 1982 successor each time; zone diffs: InMemoryZoneDiffBuilder::build for start = base, end = base + d over 14 bases x a dense offset grid (every multiple of 65537 and +-2 around 0, 2^31, 2^32): a diff is made iff end is newer than start by RFC 1982 (2^31 apart: either), with start/end serials as given; signature times in text: every calendar day 1970-01-01..2500-12-31 at 00:00:00 and 23:59:59, every second +-3 around k*2^31 (k = 1..8), Jan 1/Dec 31 of years 1971..9998 step 97, all month x day combinations of a leap and a non-leap year, hour/minute/second edge values, and integer forms at the u32 boundaries, through Timestamp::from_str and Timestamp::scan: value == seconds since the epoch mod 2^32 (own civil-date arithmetic), invalid dates rejected, integers above 2^32-1 rejected; Timestamp::to_system_time for references in the first two 2^32-second eras for all 2^32 timestamps"},
             "outcome_counts": {"less": outcomes[0].load(AO::Relaxed), "equal": outcomes[1].load(AO::Relaxed), "greater": outcomes[2].load(AO::Relaxed), "undefined": outcomes[3].load(AO::Relaxed)},
             "samples": stats.samples(),
         }),
